@@ -606,7 +606,7 @@ def gen_ll1(vs):
                     hold.add(r)
                     changed = True
         hold_names = sorted(hold, key=lambda r: rid[r])
-        out = ['(* GENERATED by harness/translator.py - do not edit *)', 'Require Import Regex Tok Engine LL1 LL1Inst LL1Engine EngineSound EngineConfine Grammars.',
+        out = ['(* GENERATED by harness/translator.py - do not edit *)', 'Require Import Regex Tok Engine LL1 LL1Inst LL1Engine EngineSound EngineConfine EngineRecover Grammars.',
                'From Coq Require Import List NArith ZArith Bool.', 'Import ListNotations.', 'Open Scope N_scope.',
                '(* table obligation: every hypothesis of the completeness theorem holds for the tables of this grammar *)',
                'Lemma ll1_tables_ok_%s : tables_ok gram_%s tr_%s fw_%s 200 = true.' % (n, n, n, n),
@@ -637,6 +637,11 @@ def gen_ll1(vs):
                '    yield tree label N (DNode tree label N S0 kb) = word_of gram_%s toks /\\' % n,
                '    convert_node gram_%s S0 (map (collapse tree label N (mk_node gram_%s)) kb) = POk t /\\ parse gram_%s tr_%s false S0 toks = POk t.' % (n, n, n, n),
                'Proof. exact (engine_sound gram_%s tr_%s ll1_tables_sound_ok_%s). Qed.' % (n, n, n),
+               '(* and (C05, every input, both modes): every tree this grammar\'s engine returns is the conversion of the collapsed form of a derivation with error markers',
+               '   in which every rule node, also inside error nodes, is a complete instance of its rule - see EngineRecover.v for what an error marker may stand for *)',
+               'Theorem C05_recovered_conform_%s : forall recover S0 toks t, parse gram_%s tr_%s recover S0 toks = POk t ->' % (n, n, n),
+               '  exists R kb, rwf gram_%s (RNode R kb) /\\ convert_node gram_%s R (map (rcollapse gram_%s) kb) = POk t.' % (n, n, n),
+               'Proof. exact (recovered_conform gram_%s tr_%s ll1_tables_sound_ok_%s). Qed.' % (n, n, n),
                '(* non-vacuity: the example token list is accepted without repair *)',
                'Example C05_nonvacuous_%s : match parse_nr gram_%s tr_%s %d ex_toks_%s with POk _ => True | PErr _ => False end.' % (n, n, n, F, n),
                'Proof. vm_compute. exact I. Qed.',
